@@ -517,5 +517,7 @@ MUTANTS = [
     M("select-full-timeout", U, "read_tty", "None if timeout < 0 else timeout - duration", "None if timeout < 0 else timeout", {"R6"}),
     M("duration-not-updated", U, "read_tty", "                    input.extend(os.read(_tty_fd, 1))\n                duration = monotonic() - start\n", "                    input.extend(os.read(_tty_fd, 1))\n", {"R6"}),
     M("name-not-lowered", U, "get_terminal_name_version", "return (name and name.lower(), version)", "return (name, version)", {"R5"}),
+    M("env-before-reply", U, "get_terminal_name_version", "    match = response and ctlseqs.XTVERSION_re.match(response.decode())\n", "    match = response and ctlseqs.XTVERSION_re.match(response.decode())\n    if os.environ.get(\"TERM_PROGRAM\"):\n        return (os.environ[\"TERM_PROGRAM\"].lower(), os.environ.get(\"TERM_PROGRAM_VERSION\"))\n", {"R5"}),
+    M("memo-key-names-only", U, "cached", "arguments = (args, tuple(kwargs.items()))", "arguments = (args, tuple(sorted(kwargs)))", {"MEMO"}),
     M("twin-lambda-arg", U, "get_cell_size", "more=lambda s: not s.endswith(b\"c\"),", "more=lambda buf: not buf.endswith(b\"c\"),", twin=True),
 ]
